@@ -156,9 +156,12 @@ def urlParse (u : Str) : Option Str :=
   | none => some pre
   | some f => if !pctOk f then none else if f.isEmpty then some pre else some (pre ++ '#' :: f)
 
+/-- `NewRequestWithContext` treats an empty method as GET -/
+def normMethod (m : Str) : Str := if m.isEmpty then "GET".toList else m
+
 /-- `http.NewRequestWithContext(ctx, method, url, body)`: fresh header map -/
 def newRequest (method url : Str) (body : Str) (w : World) : Except ErrC SentReq × World :=
-  let method := if method.isEmpty then "GET".toList else method
+  let method := normMethod method
   if !validMethod method then (.error .method, w) else
   match urlParse url with
   | none => (.error .url, w)
@@ -183,6 +186,8 @@ def doNewRequest (env : Env) (header : Option Nat) (method url : Str) (w : World
       | none => req
     doRequest env req w
 
+def contentTypeKey : Str := "Content-Type".toList
+
 /-- `DoNewRequestWithBodyOptions` l.201-218 -/
 def doNewRequestWithBodyOptions (env : Env) (header : Option Nat) (method url : Str) (body : Str)
     (contentType : Str) (w : World) : Except ErrC (Except ErrC Str) × World :=
@@ -192,7 +197,7 @@ def doNewRequestWithBodyOptions (env : Env) (header : Option Nat) (method url : 
     let req := match header with
       | some a => { req with hdrAddr := a }
       | none => req
-    let w := if contentType ≠ [] then w.set req.hdrAddr (hAdd (w.get req.hdrAddr) "Content-Type".toList contentType) else w
+    let w := if contentType ≠ [] then w.set req.hdrAddr (hAdd (w.get req.hdrAddr) contentTypeKey contentType) else w
     doRequest env req w
 
 /-- `http.Header.Clone()`: nil stays nil, otherwise a fresh map with the same content.
@@ -207,10 +212,10 @@ def decodeResponseBody (commaOk : Bool) (env : Env) (raw : Except ErrC Str) (tgt
   match raw with
   | .error e => (.resp (some e) none, w)
   | .ok bytes =>
-    let (tempTarget, err) := env.deser bytes (w.target tgt)
-    match tempTarget with
-    | some t => (.resp err (some t), w.setTarget tgt t)
-    | none => if commaOk then (.resp err none, w) else (.panic, w)
+    let r := env.deser bytes (w.target tgt)      -- (tempTarget, response.Err)
+    match r.1 with
+    | some t => (.resp r.2 (some t), w.setTarget tgt t)
+    | none => if commaOk then (.resp r.2 none, w) else (.panic, w)
 
 /-! ### the constructors -/
 
@@ -302,14 +307,14 @@ structure GenericRow where
 deriving DecidableEq, Repr
 
 def expectedCtors : List CtorRow := [
-  ⟨"APIMakeGet", "APIMakeDoNewRequest", "GET", "", ""⟩,
   ⟨"APIMakeDelete", "APIMakeDoNewRequest", "DELETE", "", ""⟩,
-  ⟨"APIMakePostJSONBody", "APIMakeDoNewRequestWithBodySerializer", "POST", "application/json", "RequestSerializerForJSON"⟩,
-  ⟨"APIMakePutJSONBody", "APIMakeDoNewRequestWithBodySerializer", "PUT", "application/json", "RequestSerializerForJSON"⟩,
+  ⟨"APIMakeGet", "APIMakeDoNewRequest", "GET", "", ""⟩,
   ⟨"APIMakePatchJSONBody", "APIMakeDoNewRequestWithBodySerializer", "PATCH", "application/json", "RequestSerializerForJSON"⟩,
+  ⟨"APIMakePatchMultipartBody", "APIMakeDoNewRequestWithMultipartSerializer", "PATCH", "", "RequestSerializerForMultipart"⟩,
+  ⟨"APIMakePostJSONBody", "APIMakeDoNewRequestWithBodySerializer", "POST", "application/json", "RequestSerializerForJSON"⟩,
   ⟨"APIMakePostMultipartBody", "APIMakeDoNewRequestWithMultipartSerializer", "POST", "", "RequestSerializerForMultipart"⟩,
-  ⟨"APIMakePutMultipartBody", "APIMakeDoNewRequestWithMultipartSerializer", "PUT", "", "RequestSerializerForMultipart"⟩,
-  ⟨"APIMakePatchMultipartBody", "APIMakeDoNewRequestWithMultipartSerializer", "PATCH", "", "RequestSerializerForMultipart"⟩]
+  ⟨"APIMakePutJSONBody", "APIMakeDoNewRequestWithBodySerializer", "PUT", "application/json", "RequestSerializerForJSON"⟩,
+  ⟨"APIMakePutMultipartBody", "APIMakeDoNewRequestWithMultipartSerializer", "PUT", "", "RequestSerializerForMultipart"⟩]
 
 def expectedGenerics : List GenericRow := [
   ⟨"APIMakeDoNewRequest", "DoNewRequest", 1, true, "api.DefaultHeader.Clone()", true, "method",
